@@ -215,11 +215,8 @@ func GetHostsFromConnectionString(connectionString string) ([]string, error) {
 	if err != nil {
 		return nil, fmt.Errorf("failed to parse connection string: %w", err)
 	}
-	if cs.Scheme == "mongodb+srv" {
-		// For SRV records, the host is the only part we need
-		return cs.Hosts, nil
-	}
-
+	// the hosts of an SRV connection string are the resolved "target:port" entries: their
+	// ports are stripped like those of a standard connection string
 	hosts := make([]string, 0, len(cs.Hosts))
 	for _, hostPort := range cs.Hosts {
 		host, _, err := net.SplitHostPort(hostPort)
